@@ -76,11 +76,19 @@ def gen(rng):
         g2 = ig.gen_groups(rng, R, 3, gaps=[R])
         tracks.append(("ExpertDrums", ig.section_lines(rng, g2, R, sp=False, tev=False)))
     text = chart_text(res=R, sync=["0 = TS 4"] + tempo_lines(tm), tracks=tracks)
-    ch = chart_mod.Chart.from_file(io.StringIO(text, newline=""))
-    be = ch.sync_track.bpm_events
+    try:
+        ch = chart_mod.Chart.from_file(io.StringIO(text, newline=""))
+        be = ch.sync_track.bpm_events
+    except Exception:  # noqa: BLE001
+        ch = be = None
     nticks = [g["tick"] for g in groups]
     def us(t):
-        return pyval.us(be.timestamp_at_tick_no_optimize_return(t))
+        # (the generator only needs SOME timestamp near tick t to aim a time bound at; if the implementation cannot say, an
+        # approximation at 120 BPM does: what is judged is the call, not this helper)
+        try:
+            return pyval.us(be.timestamp_at_tick_no_optimize_return(t))
+        except Exception:  # noqa: BLE001
+            return int(max(t, 0) * 500000 // R)
     last_tick = nticks[-1]
     calls = []
     G, X = "Single", "Expert"   # noqa: E741
